@@ -82,7 +82,10 @@ def _on_line_set(self, value, exc, token):
 
 def _pts_ok(items, result) -> bool:
     STATS["codec"] += 1
-    ints = [i for i in items]
+    try:
+        ints = [int(i) for i in items]
+    except (TypeError, ValueError):
+        return True  # not a list of ports: outside the codec's contract (whoever passed it is judged by the invariant tap)
     want = intervals.from_ints(ints)
     ok = result == intervals.encode(want)
     if not ok and len(set(ints)) != len(ints):  # repeated values: any string that decodes to the set
